@@ -2,6 +2,7 @@ package props
 
 import (
 	"fmt"
+	"go/token"
 	"go/types"
 	"sort"
 	"strings"
@@ -142,6 +143,12 @@ func c17(p *core.Program, r *core.Report) {
 				continue
 			}
 			if _, ok := purityExceptions[[2]string{key, core.FuncName(w.Event.Fn)}]; ok {
+				nExc++
+				continue
+			}
+			// the same artefact after the write was moved into a helper: under LineIntersectsLine, a write whose
+			// destination is (handed down from) one of the per-call record's result slots intersectionPoints / pa / pb
+			if key == "xy/lineintersector.LineIntersectsLine" && writesResultSlot(p, w.Event.Instr) {
 				nExc++
 				continue
 			}
@@ -363,4 +370,86 @@ func c16(p *core.Program, r *core.Report) {
 		}
 	}
 	r.Assume("value equality of the copy relies on the semantics of builtin copy for the scalar element types; regeneration of derived.gen.go by goderive is not checked (the committed file is analysed)")
+}
+
+// writesResultSlot: the instruction writes through a slice that is, or is passed down from, a load of the result
+// slots (intersectionPoints[k], pa, pb) of a lineIntersectorData record.
+func writesResultSlot(p *core.Program, in ssa.Instruction) bool {
+	var dst ssa.Value
+	switch x := in.(type) {
+	case *ssa.Store:
+		dst = x.Addr
+	case *ssa.Call:
+		if eng.BuiltinName(x) == "copy" && len(x.Call.Args) == 2 {
+			dst = x.Call.Args[0]
+		}
+	}
+	if dst == nil {
+		return false
+	}
+	callers := func(f *ssa.Function) []ssa.CallInstruction {
+		var out []ssa.CallInstruction
+		for _, g := range p.SrcFuncs(true) {
+			for _, c := range eng.Calls(g) {
+				if c.Common().StaticCallee() == f {
+					out = append(out, c)
+				}
+			}
+		}
+		return out
+	}
+	seen := map[ssa.Value]bool{}
+	var from func(v ssa.Value, depth int) bool
+	from = func(v ssa.Value, depth int) bool {
+		if v == nil || seen[v] || depth > 6 {
+			return false
+		}
+		seen[v] = true
+		switch x := v.(type) {
+		case *ssa.IndexAddr:
+			return from(x.X, depth+1)
+		case *ssa.FieldAddr:
+			st, ok := x.X.Type().Underlying().(*types.Pointer).Elem().Underlying().(*types.Struct)
+			if ok && namedTypeName(x.X.Type().Underlying().(*types.Pointer).Elem()) == "lineIntersectorData" {
+				switch st.Field(x.Field).Name() {
+				case "intersectionPoints", "pa", "pb":
+					return true
+				}
+			}
+			return false
+		case *ssa.UnOp:
+			if x.Op == token.MUL {
+				return from(x.X, depth+1)
+			}
+		case *ssa.Slice:
+			return from(x.X, depth+1)
+		case *ssa.Phi:
+			for _, e := range x.Edges {
+				if !from(e, depth+1) {
+					return false
+				}
+			}
+			return len(x.Edges) > 0
+		case *ssa.Parameter:
+			f := x.Parent()
+			idx := -1
+			for i, q := range f.Params {
+				if q == x {
+					idx = i
+				}
+			}
+			cs := callers(f)
+			if idx < 0 || len(cs) == 0 {
+				return false
+			}
+			for _, c := range cs {
+				if idx >= len(c.Common().Args) || !from(c.Common().Args[idx], depth+1) {
+					return false
+				}
+			}
+			return true
+		}
+		return false
+	}
+	return from(dst, 0)
 }
